@@ -117,12 +117,14 @@ namespace detail
 
 	GLM_FUNC_QUALIFIER glm::uint floatTo11bit(float x)
 	{
-		if(x == 0.0f)
-			return 0u;
-		else if(glm::isnan(x))
+		if(glm::isnan(x))
 			return ~0u;
+		else if(x < 3.0517578125e-05f) // unsigned format: negative values and values below 2^-15 encode as zero
+			return 0u;
 		else if(glm::isinf(x))
 			return 0x1Fu << 6u;
+		else if(x >= 65024.0f) // largest finite 11 bit value
+			return (0x1Eu << 6u) | 0x3Fu;
 
 		uint Pack = 0u;
 		memcpy(&Pack, &x, sizeof(Pack));
@@ -145,12 +147,14 @@ namespace detail
 
 	GLM_FUNC_QUALIFIER glm::uint floatTo10bit(float x)
 	{
-		if(x == 0.0f)
-			return 0u;
-		else if(glm::isnan(x))
+		if(glm::isnan(x))
 			return ~0u;
+		else if(x < 3.0517578125e-05f) // unsigned format: negative values and values below 2^-15 encode as zero
+			return 0u;
 		else if(glm::isinf(x))
 			return 0x1Fu << 5u;
+		else if(x >= 64512.0f) // largest finite 10 bit value
+			return (0x1Eu << 5u) | 0x1Fu;
 
 		uint Pack = 0;
 		memcpy(&Pack, &x, sizeof(Pack));
